@@ -842,6 +842,177 @@ def gen_C08(rng):
     return ctx.text()
 
 
+def gen_C20(rng):
+    """saturation with a relation given as separate events"""
+    ctx = Ctx(rng)
+    ctx.emit("init " + rand_ctopts(rng))
+    d = rand_domain(rng, "D", False, 40, 3)
+    ctx.emit(d.decl())
+    fs = Forest("S", d, False, "bool", "mt", rng.choice(RULES_SET), rand_opts(rng))
+    # pregen relations live in an identity-reduced forest (library default for relations)
+    fm = Forest("M", d, True, "bool", "mt", "ir", rand_opts(rng))
+    ctx.emit(fs.decl())
+    ctx.emit(fm.decl())
+    for rnd in range(rng.randint(1, 3)):
+        s = "s%d" % rnd
+        parts = ["coll", s, "S", "max", "0"]
+        for _ in range(rng.choice([1, 1, 2])):
+            parts += [";"] + rand_pos_set(rng, d, rng.choice([0, 0, 0.3])) + ["=>", "1"]
+        ctx.emit(" ".join(parts))
+        nev = rng.randint(1, 5)
+        evs = []
+        for e in range(nev):
+            name = "e%d_%d" % (rnd, e)
+            # events touch few variables: the others unchanged (x, =); sometimes the
+            # top variable is unchanged so that splitting moves the event down
+            parts = ["coll", name, "M", "max", "0"]
+            for _ in range(rng.choice([1, 1, 2])):
+                pos = []
+                touched = False
+                for vi, sz in enumerate(d.sizes):
+                    r = rng.random()
+                    if r < 0.5:
+                        pos += ["x", "="]
+                    elif r < 0.6:
+                        v = str(rng.randrange(sz))
+                        pos += [v, "="]          # tested but unchanged
+                    else:
+                        pos += [str(rng.randrange(sz)), str(rng.randrange(sz))]
+                        touched = True
+                parts += [";"] + pos + ["=>", "1"]
+            ctx.emit(" ".join(parts))
+            evs.append(name)
+        if rng.random() < 0.3 and len(evs) > 1:
+            evs.append(rng.choice(evs))            # the same event twice
+        # union relation for the monolithic algorithms
+        u = evs[0]
+        for i, e in enumerate(evs[1:]):
+            n = "u%d_%d" % (rnd, i)
+            ctx.emit("apply %s M union %s %s" % (n, u, e))
+            u = n
+        res = []
+        for _ in range(rng.randint(1, 3)):
+            mode = rng.choice(["events", "levels"])
+            split = rng.choice(["only", "sub", "suball", "mono"])
+            n = ctx.fresh("r")
+            ctx.emit("satpre %s S %s %s %s %s" % (n, mode, split, s, " ".join(evs)))
+            res.append(n)
+        m = ctx.fresh("m")
+        ctx.emit("apply %s S %s %s %s" % (m, rng.choice(["reach_nofs", "reach_fs", "reach_sat"]), s, u))
+        for x in res:
+            ctx.emit("eq %s %s" % (x, m))
+    return ctx.text()
+
+
+REORDERS = ["li", "hi", "sd", "bu", "lc", "lm", "rand", "larc"]
+
+
+def gen_C13(rng):
+    """reorder a forest with live edges (shared nodes, warm caches); other
+    forests over the same domain must be untouched"""
+    ctx = Ctx(rng)
+    rel = rng.random() < 0.4
+    ctx.emit("init " + rand_ctopts(rng))
+    d = rand_domain(rng, "D", rel, 200, 4)
+    ctx.emit(d.decl())
+    ctx.doms.append(d)
+    rules = ["fr", "qr"] if not rel else RULES_REL
+    k = len(d.sizes)
+    fs = []
+    for i in range(rng.choice([1, 2, 3])):
+        rg = rng.choice(["bool", "int", "int"])
+        opts = rand_opts(rng) + " reorder=" + rng.choice(REORDERS) + " swap=" + rng.choice(["var", "level"])
+        f = Forest("F%d" % i, d, rel, rg, "mt", rng.choice(rules), opts)
+        ctx.emit(f.decl())
+        ctx.forests.append(f)
+        fs.append(f)
+    for _ in range(rng.randint(2, 5)):
+        gen_leaf(ctx, rng.choice(fs))
+    for _ in range(rng.randint(0, 3)):
+        names = list(ctx.edges)
+        a, b = rng.choice(names), rng.choice(names)
+        if ctx.edges[a] is ctx.edges[b]:
+            f = ctx.edges[a]
+            n = ctx.fresh()
+            ctx.emit("apply %s %s %s %s %s" % (n, f.name, rng.choice(SETOPS) if f.range == "bool"
+                                                else rng.choice(["plus", "max", "min"]), a, b))
+            ctx.edges[n] = f
+    for rnd in range(rng.randint(1, 3)):
+        f = rng.choice(fs)
+        perm = list(range(1, k + 1))
+        rng.shuffle(perm)
+        ctx.emit("reorder %s %s" % (f.name, " ".join(map(str, perm))))
+        for e in ctx.edges:
+            ctx.emit("show %s" % e)
+        ctx.emit("audit %s" % f.name)
+        # the forest stays usable: new operations after the reorder
+        names = [e for e in ctx.edges if ctx.edges[e] is f]
+        if len(names) >= 2 and rng.random() < 0.7:
+            a, b = rng.choice(names), rng.choice(names)
+            n = ctx.fresh()
+            ctx.emit("apply %s %s %s %s %s" % (n, f.name, rng.choice(SETOPS) if f.range == "bool"
+                                                else rng.choice(["plus", "max", "min"]), a, b))
+            ctx.edges[n] = f
+    return ctx.text()
+
+
+def gen_C14(rng):
+    """write roots (shared sub-graphs, terminal roots, repeated roots) and read
+    them back into the same forest, a twin forest, and a forest created from
+    the file; reader/writer with different storage policies"""
+    ctx = Ctx(rng)
+    rel = rng.random() < 0.5
+    ctx.emit("init " + rand_ctopts(rng))
+    d = rand_domain(rng, "D", rel, 300, 4)
+    ctx.emit(d.decl())
+    ctx.doms.append(d)
+    rg = rng.choice(["bool", "int", "int", "real"])
+    rule = rng.choice(RULES_REL if rel else RULES_SET)
+    fw = Forest("W", d, rel, rg, "mt", rule, rand_opts(rng))
+    ft = Forest("T", d, rel, rg, "mt", rule, rand_opts(rng))      # twin: same kind, other policies
+    ctx.emit(fw.decl())
+    ctx.emit(ft.decl())
+    ctx.forests += [fw, ft]
+    for _ in range(rng.randint(2, 5)):
+        gen_leaf(ctx, fw)
+    names = list(ctx.edges)
+    for _ in range(rng.randint(0, 3)):
+        a, b = rng.choice(names), rng.choice(names)
+        n = ctx.fresh()
+        ctx.emit("apply %s W %s %s %s" % (n, rng.choice(SETOPS) if rg == "bool" else rng.choice(["plus", "max", "min"]), a, b))
+        ctx.edges[n] = fw
+        names.append(n)
+    if rng.random() < 0.4:
+        n = ctx.fresh()
+        ctx.emit("const %s W %s" % (n, rng.choice(["0", "1"] if rg == "bool" else ["0", "64", "128"] if rg == "real" else ["0", "3"])))
+        names.append(n)
+    roots = [rng.choice(names) for _ in range(rng.randint(1, 5))]
+    if rng.random() < 0.3:
+        roots.append(roots[0])                       # repeated root
+    ctx.emit("write f W %s" % " ".join(roots))
+    # something already in the twin forest (equal nodes must be found, not duplicated)
+    if rng.random() < 0.5:
+        gen_leaf(ctx, ft)
+    targets = [("read", "W"), ("read", "T")]
+    # a forest created from the file gets the default reduction rule; the file does
+    # not record the writer's rule, so a fully-reduced *relation* forest does not
+    # survive, and a quasi-reduced one leaves illegal singleton edges in the new
+    # identity-reduced forest (known findings, probed by corpus/C14/readnew-*.script)
+    if not (rel and rule != "ir"):
+        targets.append(("readnew", "N D"))
+    rng.shuffle(targets)
+    for ti, (cmd, tgt) in enumerate(targets[: rng.randint(1, 3)]):
+        rn = ["r%d_%d" % (ti, i) for i in range(len(roots))]
+        ctx.emit("%s f %s %s" % (cmd, tgt, " ".join(rn)))
+        for i, r in enumerate(rn):
+            ctx.emit("show %s" % r)
+            if tgt == "W":
+                ctx.emit("eq %s %s" % (r, roots[i]))
+        ctx.emit("audit %s" % tgt.split()[0])
+    # release everything read: counts must return to exact
+    return ctx.text()
+
+
 CT_STYLES = ["mc", "mu", "oc", "ou"]
 CT_STALE = ["agg", "mod", "lazy"]
 
